@@ -131,3 +131,44 @@ def classify(c, obs, why):
 def shard_group(line):
     t = line.split(" ")
     return t[2] if len(t) > 2 else ""
+
+
+def run(res, a):
+    import json, os, sys
+    from .. import core
+    mod = sys.modules[__name__]
+    res.rule = RULE + ("; additionally (implementation side only): the two directions of one session interleaved — Decrypt has read the length "
+                       "of an incoming frame, the same session encrypts a message of another length, then the rest of the frame arrives")
+    res.assumptions = list(globals().get("ASSUMPTIONS", []))
+    core.build_everything(res, ID, extra_files=globals().get("EXTRA_FILES", ()))
+    res.trusted += TRUSTED
+    rng = core.rng_for(ID, res.seed)
+    if a.replay:
+        rep = json.load(open(a.replay))
+        if rep["case"].startswith("intl "):
+            cases = [{"id": "replay", "line": rep["case"], "kind": "both-directions"}]
+        else:
+            core.run_correspondence(res, FAMILY, [{"id": "replay", "line": rep["case"], "kind": "replay"}], mod)
+            return
+    else:
+        core.run_correspondence(res, FAMILY, core.load_corpus(FAMILY) + gen(rng, a.tier), mod)
+        sizes = [(5, 9), (9, 5), (40, 1024), (1024, 3), (1500, 30), (30, 1500), (1, 2)] * (1 if a.tier == "quick" else 8)
+        cases = [{"id": "il%d" % i, "line": "intl %s %s %s" % (rb(rng, 32), rb(rng, x), rb(rng, y)), "kind": "both-directions"} for i, (x, y) in enumerate(sizes)]
+    obs = core.shard_run(os.path.join(core.BUILD, "hcdrv"), FAMILY, ["%s %s" % (c["id"], c["line"]) for c in cases])
+    bad = 0
+    for c in cases:
+        o = obs.get(c["id"], "NO-OUTPUT")
+        t = c["line"].split(" ")
+        res.cases += 1
+        h = core.sha(c["line"])
+        res.distinct.add(h)
+        res.nontrivial.add(h)
+        res.count("kind:both-directions")
+        if o != "d=%s e=%s" % (t[2], t[3]):
+            bad += 1
+            f = fields(o)
+            why = ("the incoming message does not decrypt to what the peer sent" if f.get("d") != t[2] else "the outgoing message is not what a conformant peer decrypts")
+            res.violations.append(("both-directions", {"property": ID, "family": FAMILY, "seed": res.seed, "case": c["line"], "implementation_observed": o[:300],
+                                                       "required": "one session receiving and sending at the same time (the length of an incoming frame read, then a message of %d bytes encrypted, then the rest of the frame): %s" % (len(t[3]) // 2, why),
+                                                       "failing_input_found": True, "replay": "python3 tools/check.py C06 --replay <this file>"}))
+    res.obligations.append(("implementation-side runs: both directions of one session interleaved", bad == 0, "%d runs, %d failing" % (len(cases), bad)))
